@@ -85,7 +85,18 @@ def nontrivial(case, result):
 
 def classify(case, result):
     t = case.split(" ")
-    if len(t) < 10:
+    if t[0] in ("S", "P"):
+        return {"S": "S six faces, one encoder", "P": "P chain started in the middle"}[t[0]]
+    if t[0] == "T" and len(t) == 11:
+        # whole files: layout kind x declared level count vs the full chain x where the FIRST generation starts
+        full = max(int(t[2]), int(t[3])).bit_length()
+        m = int(t[4])
+        starts = t[9].split(",")
+        kind = "texture" if t[1] == "t" else "cube" if t[1] == "c" else "array"
+        dec = "short" if m < full else "full" if m == full else "surplus"
+        st = "top" if all(k == "0" for k in starts) else "first-mid" if starts[0] != "0" else "later-mid"
+        return f"T {kind} {dec} {st}"
+    if len(t) < 10 or t[0] != "M":
         return "bad"
     w, h = int(t[1]), int(t[2])
 
@@ -106,4 +117,9 @@ def classify(case, result):
         sz = "large"
     # 6 size classes x 5 filters x straight alpha on/off = 60 classes (check.py keeps the 60 largest);
     # colour format, memory layout and content are swept as a full product by generator part (A)
+    if len(t) == 11:
+        # declared level count other than the full chain
+        m = int(t[10][2:])
+        full = max(w, h).bit_length()
+        return f"M declared {'short' if m < full else 'full' if m == full else 'surplus'}"
     return f"{sz} {t[5]} sa={t[6]}"
